@@ -289,15 +289,3 @@ Proof.
   rewrite IH. apply insert_by_map.
 Qed.
 
-Print Assumptions sort_by_perm.
-Print Assumptions sort_by_length.
-Print Assumptions sort_by_in.
-Print Assumptions sort_by_sorted.
-Print Assumptions sort_by_stable.
-Print Assumptions sort_by_sorted_id.
-Print Assumptions stable_sort_unique.
-Print Assumptions sort_by_split.
-Print Assumptions sort_by_app_lt.
-Print Assumptions sort_by_filter.
-Print Assumptions sort_by_perm_distinct.
-Print Assumptions sort_by_map.
